@@ -150,11 +150,31 @@ func (g *Engine) ensureInit(e *Exec, p *ssa.Package) {
 	was := e.inInit
 	e.inInit = true
 	savedStack := e.stack
+	defer func() {
+		e.stack = savedStack
+		e.inInit = was
+	}()
 	fr := &frame{fn: initFn, locals: map[ssa.Value]Value{}}
 	e.stack = append(e.stack, fr)
-	e.runFrame(fr, len(e.stack))
-	e.stack = savedStack
-	e.inInit = was
+	if e.strictInit[p] {
+		e.runFrame(fr, len(e.stack))
+		return
+	}
+	// dependency package: an initialiser the engine cannot run leaves the package partly
+	// initialised (recorded); it must not take the path down
+	func() {
+		defer func() {
+			if r := recover(); r != nil {
+				switch r.(type) {
+				case *unsupportedErr, *goPanic:
+					e.initSkips = append(e.initSkips, p.Pkg.Path()+": initialiser aborted")
+				default:
+					panic(r)
+				}
+			}
+		}()
+		e.runFrame(fr, len(e.stack))
+	}()
 }
 
 func loadEngine(repo string, harnessDir string, extraPkgs []string) (*Engine, error) {
